@@ -2,13 +2,18 @@
    universal budget theorem for degree claims (Proofs.DegInvariant), all
    syntactic and evaluated by the check on every graph the implementation hands to
    propagation.
-     - no degree claim yet ([clean_deg]);
-     - a parameter is never the target of an assignment nor named by a declaration
-       statement;
-     - a declaration statement gives its names the type the declaration table
-       gives them; an assignment marked local assigns a declared local;
-     - the array read by an element-wise update is not assigned by that statement
-       or a later one (in the linear order of the blocks).
+     - no degree claim yet ([clean_deg_stmt]);
+     - the target of an assignment is not a parameter, it is declared, and the
+       assignment is marked local exactly when the declaration table says local;
+     - a declaration statement names no parameter and gives its names the type the
+       declaration table gives them;
+     - the array read by an element-wise update is a parameter, or a signal /
+       component named by a declaration statement EARLIER in the linear order of
+       the blocks, or a local (or undeclared) name that is not assigned by that
+       statement or a later one;
+     - a local has a single defining assignment ([ldefs_unique]).
+   Only the static signature of a statement ([ssig]: target, local mark, declared
+   names, update bases) enters the last four.
    Definitions only. *)
 From Coq Require Import ZArith NArith List Bool.
 Require Import Model.Base Model.Ir Model.Propagate Model.Justify Model.DegJustify.
@@ -52,45 +57,74 @@ Definition clean_deg_stmt (s : stmt) : bool := forallb clean_deg_expr (stmt_expr
 
 (* the arrays read by element-wise updates anywhere in an expression *)
 Fixpoint update_bases (e : expr) {struct e} : list vname :=
-  let fix ub_list (es : list expr) : list vname :=
-      match es with [] => [] | x :: tl => update_bases x ++ ub_list tl end in
-  let fix ub_acc (acc : list (access expr)) : list vname :=
-      match acc with
-      | [] => []
-      | AIdx x :: tl => update_bases x ++ ub_acc tl
-      | AComp _ :: tl => ub_acc tl
-      end in
   match e with
   | ENum _ _ | EVar _ _ | EPhi _ _ => []
   | EInfix _ l r _ => update_bases l ++ update_bases r
   | EPrefix _ x _ => update_bases x
   | ESwitch c t f _ => update_bases c ++ update_bases t ++ update_bases f
-  | ECall _ args _ => ub_list args
-  | EArray vs _ => ub_list vs
-  | EAccess _ acc _ => ub_acc acc
-  | EUpdate v acc rhe _ => v :: update_bases rhe ++ ub_acc acc
+  | ECall _ args _ => flat_map update_bases args
+  | EArray vs _ => flat_map update_bases vs
+  | EAccess _ acc _ => flat_map (fun a => match a with AIdx x => update_bases x | AComp _ => [] end) acc
+  | EUpdate v acc rhe _ =>
+    v :: update_bases rhe ++ flat_map (fun a => match a with AIdx x => update_bases x | AComp _ => [] end) acc
   end.
 
 Definition stmt_update_bases (s : stmt) : list vname := flat_map update_bases (stmt_exprs s).
 
-(* one statement against the statements from it on *)
-Definition stmt_wf (c : cfg) (s : stmt) (from : list stmt) : bool :=
-  match s with
-  | SDecl _ names t _ =>
-    forallb (fun n => negb (is_param c n) && match decl_of c n with Some t' => vtype_eqb t t' | None => false end) names
-  | SSubst _ v _ _ _ stype =>
-    negb (stype_is_local stype) ||
-    (negb (is_param c v) && match decl_of c v with Some TLocal => true | _ => false end)
-  | _ => true
-  end &&
-  forallb (fun v => negb (existsb (defines v) from)) (stmt_update_bases s).
+(* the static signature of a statement: what degree propagation never changes *)
+Record ssg := { sg_tgt : option vname; sg_ldef : bool; sg_decl : option (list vname * vtype); sg_ub : list vname }.
 
-Fixpoint stmts_wf (c : cfg) (ss : list stmt) : bool :=
-  match ss with
+Definition sdecl (s : stmt) : option (list vname * vtype) :=
+  match s with SDecl _ names t _ => Some (names, t) | _ => None end.
+
+Definition ssig (s : stmt) : ssg :=
+  {| sg_tgt := tgt s; sg_ldef := is_ldef s; sg_decl := sdecl s; sg_ub := stmt_update_bases s |}.
+
+Definition sg_defines (v : vname) (x : ssg) : bool :=
+  match sg_tgt x with Some w => vname_eqb w v | None => false end.
+
+(* a declaration statement of a signal or component type that names v *)
+Definition sg_declares (v : vname) (x : ssg) : bool :=
+  match sg_decl x with
+  | Some (names, t) => is_sig_or_comp t && existsb (vname_eqb v) names
+  | None => false
+  end.
+
+(* one statement on its own *)
+Definition sg_wf_head (c : cfg) (x : ssg) : bool :=
+  match sg_tgt x with
+  | Some v =>
+    negb (is_param c v) &&
+    match decl_of c v with
+    | Some t => Bool.eqb (sg_ldef x) (negb (is_sig_or_comp t))
+    | None => false
+    end
+  | None => true
+  end &&
+  match sg_decl x with
+  | Some (names, t) =>
+    forallb (fun n => negb (is_param c n) &&
+                      match decl_of c n with Some t' => vtype_eqb t t' | None => false end) names
+  | None => true
+  end.
+
+(* an update base of a statement, against the statements before it and from it on *)
+Definition ub_ok (c : cfg) (before from : list ssg) (v : vname) : bool :=
+  is_param c v ||
+  match decl_of c v with
+  | Some t => if is_sig_or_comp t then existsb (sg_declares v) before
+              else negb (existsb (sg_defines v) from)
+  | None => negb (existsb (sg_defines v) from)
+  end.
+
+(* [before]: the statements already passed (most recent first) *)
+Fixpoint sgs_wf (c : cfg) (before l : list ssg) : bool :=
+  match l with
   | [] => true
-  | s :: tl => stmt_wf c s (s :: tl) && stmts_wf c tl
+  | x :: tl =>
+    sg_wf_head c x && forallb (ub_ok c before (x :: tl)) (sg_ub x) && sgs_wf c (x :: before) tl
   end.
 
 Definition deg_wf (c : cfg) : bool :=
   let ss := all_stmts (c_blocks c) in
-  forallb clean_deg_stmt ss && stmts_wf c ss && ldefs_unique ss.
+  forallb clean_deg_stmt ss && sgs_wf c [] (map ssig ss) && ldefs_unique ss.
